@@ -1,8 +1,16 @@
 #!/usr/bin/env python3
 """Re-run every seeded change against the quick tier of its property's check at the given seeds
 (without touching the stored detection records). Usage: regress_seeded.py SEED [SEED...]"""
-import glob, json, os, subprocess, sys
+import glob, json, os, signal, subprocess, sys
 seeds = sys.argv[1:] or ["2"]
+if subprocess.run("git status --porcelain --untracked-files=no", shell=True, cwd="/repo", capture_output=True, text=True).stdout.strip():
+    sys.exit("/repo not clean")
+def _restore(signum, frame):
+    # a seeded change must never outlive this tool in /repo's working tree (it did once: 993a925)
+    subprocess.run(["git", "-C", "/repo", "checkout", "--", "."])
+    os._exit(128 + signum)
+for _s in (signal.SIGTERM, signal.SIGINT, signal.SIGHUP):
+    signal.signal(_s, _restore)
 missed = []
 for d in sorted(glob.glob('/verif/seeded/*/')):
     sid = os.path.basename(d[:-1])
